@@ -320,6 +320,14 @@ def run(ctx):
         C.anchor_missing('C01-MUST-onetext', 'parse_element: push of character data')
     else:
         tests_ = [pos for pos, t in pe_.iter_calls() if call_matches(t, r'ElementType::content_mode$') or (call_matches(t, r'SmallVec::<A>::(is_empty|len)$|Iterator>?::any$') and 'ElementRaw.content' in deep_sources(pe_, t['args'][0], depth=8)[2])]
+        # the test may sit in the predicate of an Option / iterator adaptor (`chardata_spec().filter(|_| .. content.is_empty())`): the
+        # call that runs the closure stands for it
+        for x_ in P.closures_of(pe_):
+            if any(call_matches(t, r'ElementType::content_mode$|SmallVec::<A>::(is_empty|len)$') for _, t in x_.iter_calls()):
+                for pos, st in pe_.iter_stmts():
+                    if st['k'] == 'assign' and st['rv']['k'] == 'agg' and st['rv'].get('ak') == 'closure' and st['rv'].get('fn') == x_.id:
+                        cl_ = st['dst']['l']
+                        tests_ += [q for q, t in pe_.iter_calls() if any(is_local_op(a) and a['l'] == cl_ for a in t['args'])]
         from pairing import iteration_start as _its
         for i_, cp in enumerate(cd_push):
             okc = any(pe_.pos_dominates(tp, cp) and tp in pe_.reach_from(_its(pe_, cp)) for tp in tests_)
